@@ -629,10 +629,10 @@ impl Prop for Finds {
     }
     fn floors(&self) -> Vec<(&'static str, u64, u64)> {
         match self.0 {
-            Which::Prefix => vec![("prefix len 1", 500, 5000), ("prefix len 2", 500, 5000), ("prefix len >3", 2000, 20000), ("word with stem < len", 200, 2000), ("function word", 20, 200), ("word > 20 letters", 20, 200), ("judged queries echoed through the registry after a locale switch of the id", 500, 5000), ("judged queries preceded by the same query under a lower limit", 1000, 10000), ("stores with a title in letters outside the BMP", 20, 200), ("stores with a word (or word pair) of more than 1024 letters", 2, 20), ("stores with a word of more than 4096 letters", 2, 10), ("stores cleared and refilled before the judged searches", 100, 1000), ("judged queries preceded by the searches of a person typing them", 5000, 50000), ("titles with more than 20 words", 100, 1000), ("catalogues of more than 2^19 records that share their first letter", 1, 10)],
-            Which::Typo => vec![("substitution at first", 50, 500), ("insertion at first", 50, 500), ("deletion at first", 50, 500), ("transposition at first", 50, 500), ("transposition at last", 50, 500), ("len 5", 200, 2000), ("len >20", 100, 1000), ("judged queries echoed through the registry after a locale switch of the id", 500, 5000), ("judged queries preceded by the same query under a lower limit", 1000, 10000), ("stores with a title in letters outside the BMP", 20, 200), ("stores with a word (or word pair) of more than 1024 letters", 2, 20), ("stores with a word of more than 4096 letters", 2, 10), ("stores cleared and refilled before the judged searches", 100, 1000), ("typo letter that is an accented letter of the language", 3000, 30000), ("judged queries preceded by the searches of a person typing them", 5000, 50000), ("titles with more than 20 words", 30, 300), ("exhaustive-letter edits", 30000, 250000), ("exhaustive-letter words that are function words", 150, 150)],
-            Which::Whole => vec![("whole title", 1000, 10000), ("first last", 300, 3000), ("judged queries echoed through the registry after a locale switch of the id", 500, 5000), ("judged queries preceded by the same query under a lower limit", 1000, 10000), ("stores with a title in letters outside the BMP", 20, 200), ("stores with a word (or word pair) of more than 1024 letters", 2, 20), ("stores with a word of more than 4096 letters", 2, 10), ("stores cleared and refilled before the judged searches", 100, 1000), ("judged queries preceded by the searches of a person typing them", 5000, 50000), ("last first", 300, 3000), ("title with function word", 50, 500), ("titles with more than 20 words", 200, 2000), ("catalogues searched while small, then grown and given limit = N", 6, 60), ("titles with more than 65 536 distinct grams", 1, 10)],
-            Which::SplitJoin => vec![("split", 2000, 20000), ("split after first letter", 200, 2000), ("judged queries echoed through the registry after a locale switch of the id", 500, 5000), ("judged queries preceded by the same query under a lower limit", 1000, 10000), ("stores with a title in letters outside the BMP", 20, 200), ("stores with a word (or word pair) of more than 1024 letters", 2, 20), ("stores with a word of more than 4096 letters", 2, 10), ("stores cleared and refilled before the judged searches", 100, 1000), ("judged queries preceded by the searches of a person typing them", 5000, 50000), ("join", 100, 1000), ("join with 1-letter first word", 3, 30), ("titles with more than 20 words", 100, 1000), ("split followed by a separator", 20000, 200000), ("split next to symbols inside the word", 300, 3000)],
+            Which::Prefix => vec![("prefix len 1", 500, 5000), ("prefix len 2", 500, 5000), ("prefix len >3", 2000, 20000), ("word with stem < len", 200, 2000), ("function word", 20, 200), ("word > 20 letters", 20, 200), ("judged queries echoed through the registry after a locale switch of the id", 500, 5000), ("judged queries preceded by the same query under a lower limit", 1000, 10000), ("stores with a title in letters outside the BMP", 20, 200), ("stores with a word (or word pair) of more than 1024 letters", 2, 20), ("stores with a word of more than 4096 letters", 2, 10), ("stores cleared and refilled before the judged searches", 100, 1000), ("judged queries preceded by the searches of a person typing them", 5000, 50000), ("titles with more than 20 words", 100, 1000), ("catalogues of more than 2^19 records that share their first letter", 1, 10), ("titles with more than 1024 words", 1, 5)],
+            Which::Typo => vec![("substitution at first", 50, 500), ("insertion at first", 50, 500), ("deletion at first", 50, 500), ("transposition at first", 50, 500), ("transposition at last", 50, 500), ("len 5", 200, 2000), ("len >20", 100, 1000), ("judged queries echoed through the registry after a locale switch of the id", 500, 5000), ("judged queries preceded by the same query under a lower limit", 1000, 10000), ("stores with a title in letters outside the BMP", 20, 200), ("stores with a word (or word pair) of more than 1024 letters", 2, 20), ("stores with a word of more than 4096 letters", 2, 10), ("stores cleared and refilled before the judged searches", 100, 1000), ("typo letter that is an accented letter of the language", 3000, 30000), ("judged queries preceded by the searches of a person typing them", 5000, 50000), ("titles with more than 20 words", 30, 300), ("exhaustive-letter edits", 30000, 250000), ("exhaustive-letter words that are function words", 150, 150), ("titles with more than 1024 words", 1, 5)],
+            Which::Whole => vec![("whole title", 1000, 10000), ("first last", 300, 3000), ("judged queries echoed through the registry after a locale switch of the id", 500, 5000), ("judged queries preceded by the same query under a lower limit", 1000, 10000), ("stores with a title in letters outside the BMP", 20, 200), ("stores with a word (or word pair) of more than 1024 letters", 2, 20), ("stores with a word of more than 4096 letters", 2, 10), ("stores cleared and refilled before the judged searches", 100, 1000), ("judged queries preceded by the searches of a person typing them", 5000, 50000), ("last first", 300, 3000), ("title with function word", 50, 500), ("titles with more than 20 words", 200, 2000), ("catalogues searched while small, then grown and given limit = N", 6, 60), ("titles with more than 65 536 distinct grams", 1, 10), ("titles with more than 1024 words", 1, 5)],
+            Which::SplitJoin => vec![("split", 2000, 20000), ("split after first letter", 200, 2000), ("judged queries echoed through the registry after a locale switch of the id", 500, 5000), ("judged queries preceded by the same query under a lower limit", 1000, 10000), ("stores with a title in letters outside the BMP", 20, 200), ("stores with a word (or word pair) of more than 1024 letters", 2, 20), ("stores with a word of more than 4096 letters", 2, 10), ("stores cleared and refilled before the judged searches", 100, 1000), ("judged queries preceded by the searches of a person typing them", 5000, 50000), ("join", 100, 1000), ("join with 1-letter first word", 3, 30), ("titles with more than 20 words", 100, 1000), ("split followed by a separator", 20000, 200000), ("split next to symbols inside the word", 300, 3000), ("titles with more than 1024 words", 1, 5)],
         }
     }
     fn ratios(&self) -> Vec<(&'static str, &'static str, f64, f64)> {
@@ -673,14 +673,14 @@ impl Prop for Finds {
                     cx.count("stores with a title in letters outside the BMP");
                 }
                 // (at fixed case numbers: a word of more than 4096 letters - some 17 million matrix cells per search)
-                let giant4k = cx.tier != Tier::Miri && idx % 1200 == 601 && idx < 48_000;
+                let giant4k = cx.tier != Tier::Miri && idx % 1201 == 601 && idx < 48_040;
                 if cx.tier != Tier::Miri && (giant4k || cx.rng.chance(1, 250)) {
                     // a title with a word of more than 1024 letters, or two words whose run-together spelling passes 1024
                     let alpha = gen::lower_alphabet(lang);
                     let t = if giant4k {
                         cx.count("stores with a word of more than 4096 letters");
                         // (every other time the title is that word alone: no shorter word finds the record for it)
-                        if (idx / 1200) % 2 == 0 {
+                        if (idx / 1201) % 2 == 0 {
                             gen::rand_word(&mut cx.rng, &alpha, 4097, 4300)
                         } else {
                             format!("{} {}", gen::any_word(&mut cx.rng, lang), gen::rand_word(&mut cx.rng, &alpha, 4097, 4300))
@@ -790,6 +790,24 @@ impl Prop for Finds {
                 let mut st = St::build_sentinel(lang, &recs, 10);
                 cx.count("titles with more than 65 536 distinct grams");
                 self.check_record(cx, &mut st, &json!(format!("3 records; record 2 has {} words of 230 different letters", nwords)), &recs[1], &mut done);
+            }
+            "big" if idx % 16 == 7 && cx.tier != Tier::Miri => {
+                // a title of 1025-1300 words (a description rather than a name): a thousand and more words from a pool of six,
+                // then five words of its own at the very end - those, their prefixes, typos, splits and joins are judged
+                let lang = LANGS[((idx / 16) % NL) as usize];
+                let alpha = gen::lower_alphabet(lang);
+                let pool: Vec<String> = (0..6).map(|_| gen::rand_word(&mut cx.rng, &alpha, 2, 5)).collect();
+                let nwords = cx.rng.range(1025, 1300);
+                let mut words: Vec<String> = (0..nwords).map(|_| cx.rng.pick(&pool).clone()).collect();
+                for _ in 0..5 {
+                    words.push(gen::rand_word(&mut cx.rng, &alpha, 3, 9));
+                }
+                let title = words.join(" ");
+                let recs: Vec<Rec> = vec![(1, gen::rand_title(&mut cx.rng, lang, 3), 1), (2, title, 2)];
+                let mut st = St::build_sentinel(lang, &recs, 10);
+                cx.count("titles with more than 1024 words");
+                // (the pool words are judged once each, where they stand first; the last five where they stand)
+                self.check_record(cx, &mut st, &json!(format!("2 records; record 2 has {} words, the last five are {:?}", nwords + 5, &words[nwords..])), &recs[1], &mut done);
             }
             "big" => {
                 // a catalogue of 4200-9000 records dominated by one word (posting lists beyond 4096 / 8192
